@@ -67,6 +67,15 @@ class _CircuitAttacher(object):
         real_port = real_addr.port
         self._circuit_targets[(real_host, real_port)] = (circuit, d)
 
+    def _forget_endpoint(self, d):
+        """
+        The local connection behind add_endpoint()'s Deferred `d` is
+        gone, so no stream will ever come from its address.
+        """
+        for k, (circ, target_d) in list(self._circuit_targets.items()):
+            if target_d is d:
+                del self._circuit_targets[k]
+
     def attach_stream_failure(self, stream, fail):
         """
         IStreamAttacher API
@@ -157,7 +166,13 @@ class TorCircuitEndpoint(object):
         yield self._circuit.when_built()
         connect_d = self._target_endpoint.connect(protocol_factory)
         attached_d = attacher.add_endpoint(self._target_endpoint, self._circuit)
-        proto = yield connect_d
+        try:
+            proto = yield connect_d
+        except Exception:
+            # don't leave our (address, port) entry behind: a later,
+            # unrelated stream may come from the same local port
+            attacher._forget_endpoint(attached_d)
+            raise
         yield attached_d
         return proto
 
